@@ -11,10 +11,13 @@ import (
 	"bytes"
 	"fmt"
 	"math/rand"
+	"strconv"
+	"unsafe"
 
 	"golang.org/x/sys/cpu"
 
 	"github.com/charlievieth/strcase"
+	"github.com/charlievieth/strcase/bytcase"
 	"verifharness/simdpkg"
 )
 
@@ -101,6 +104,7 @@ func init() {
 			}
 		}
 		x.strayAll()
+		x.overflow32Probe()
 		// fixed deterministic corpus
 		saved := x.g
 		x.g = &Gen{rng: rand.New(rand.NewSource(20240917))}
@@ -109,4 +113,47 @@ func init() {
 		x.g = saved
 		run(x.scale)
 	}
+}
+
+// overflow32Probe: with a 32-bit int (GOARCH=386) a haystack of 715 827 883 bytes or more makes len(s)*3 exceed
+// 2^31: arithmetic on lengths must not wrap.  One 716 MB buffer of 'a' (the string functions get a view of the same
+// memory), a handful of calls whose answers are known without a reference.  Skipped where int has 64 bits (no real
+// string is long enough there).
+func (x *Ctx) overflow32Probe() {
+	if strconv.IntSize != 32 {
+		return
+	}
+	const n = (1<<31)/3 + 1
+	buf := bytes.Repeat([]byte("a"), n+2)
+	full := unsafe.String(&buf[0], len(buf))
+	s, sb := full[:n], buf[:n:n]
+	bad := func(what string, got, want interface{}) {
+		x.finding(Finding{Kind: "config", Fn: what,
+			Detail: fmt.Sprintf("GOARCH=386, s = strings.Repeat(\"a\", %d) (len(s)*3 >= 2^31): %s = %v, want %v", n, what, got, want)})
+	}
+	chk := func(what string, got, want interface{}) {
+		x.st.Evaluations++
+		if got != want {
+			bad(what, got, want)
+		}
+	}
+	chk("strcase.HasPrefix(s, \"a\")", strcase.HasPrefix(s, "a"), true)
+	chk("strcase.HasPrefix(s, \"\")", strcase.HasPrefix(s, ""), true)
+	chk("strcase.HasSuffix(s, \"A\")", strcase.HasSuffix(s, "A"), true)
+	chk("len(strcase.TrimPrefix(s, \"A\"))", len(strcase.TrimPrefix(s, "A")), n-1)
+	chk("len(strcase.TrimSuffix(s, \"a\"))", len(strcase.TrimSuffix(s, "a")), n-1)
+	_, f1 := strcase.CutPrefix(s, "A")
+	chk("strcase.CutPrefix(s, \"A\") found", f1, true)
+	_, f2 := strcase.CutSuffix(s, "A")
+	chk("strcase.CutSuffix(s, \"A\") found", f2, true)
+	chk("strcase.Index(s+\"aa\", \"AAA\")", strcase.Index(full, "AAA"), 0)
+	chk("strcase.Contains(s+\"aa\", \"aaa\")", strcase.Contains(full, "aaa"), true)
+	chk("strcase.LastIndex(s+\"aa\", \"AAA\")", strcase.LastIndex(full, "AAA"), n-1)
+	chk("strcase.EqualFold(s, s)", strcase.EqualFold(s, full[:n]), true)
+	chk("bytcase.HasPrefix(s, \"a\")", bytcase.HasPrefix(sb, []byte("a")), true)
+	chk("bytcase.HasSuffix(s, \"A\")", bytcase.HasSuffix(sb, []byte("A")), true)
+	chk("len(bytcase.TrimPrefix(s, \"A\"))", len(bytcase.TrimPrefix(sb, []byte("A"))), n-1)
+	chk("bytcase.Index(s+\"aa\", \"AAA\")", bytcase.Index(buf, []byte("AAA")), 0)
+	chk("bytcase.LastIndex(s+\"aa\", \"AAA\")", bytcase.LastIndex(buf, []byte("AAA")), n-1)
+	x.note("32-bit length arithmetic: 16 calls on a haystack of %d bytes", n)
 }
